@@ -674,7 +674,10 @@ Next:
           // don't calculate LL here, but we know that it would be '10' if there is at least one ZMM register used.
 
           // There is no {er}/{sae}-enabled instruction with less than two operands.
-          ASMJIT_ASSERT(op_count >= 2);
+          if (ASMJIT_UNLIKELY(op_count < 2)) {
+            return make_error(Error::kInvalidEROrSAE);
+          }
+
           if (ASMJIT_UNLIKELY(!is_zmm_or_m512(operands[0]) && !is_zmm_or_m512(operands[1]))) {
             return make_error(Error::kInvalidEROrSAE);
           }
